@@ -1,0 +1,16 @@
+//go:build verif
+
+package rr
+
+// Contracts for the verifier in /verif (comment-only file; no declarations).
+
+//@ func runoffCoefficient(rainfall, coeff, runoff)
+//@   noalias
+//@   safety C10
+//@   requires rainfall.len == runoff.len
+//@   requires 0 <= coeff && coeff <= 1
+//@   requires forall(k, 0, rainfall.len, rainfall.at(k) >= 0)
+//@   assigns runoff.cells
+//@   loop 0 invariant 0 <= i && i <= n
+//@   loop 0 step [C10.coeff-bounds] 0 <= runoff.at(i) && runoff.at(i) <= rainfall.at(i)
+//@   loop 0 step [C10.coeff-def] runoff.at(i) == coeff * rainfall.at(i)
